@@ -288,10 +288,13 @@ func (lib *SpecLib) loadContractFile(path, pkgPath string) error {
 			case "iter":
 				// iter invariant E   (on a closure passed to an iterator function)
 				f := strings.Fields(rest)
-				if len(f) < 2 || f[0] != "invariant" {
-					return fail(fmt.Errorf("iter invariant <expr>"))
-				}
 				cl.Kind = "iterinv"
+				if len(f) >= 3 && f[0] == "inner" && f[1] == "invariant" {
+					cl.Kind = "iterinner"
+					rest = strings.TrimSpace(strings.TrimPrefix(strings.TrimSpace(rest), "inner"))
+				} else if len(f) < 2 || f[0] != "invariant" {
+					return fail(fmt.Errorf("iter [inner] invariant <expr>"))
+				}
 				cl.Text = strings.TrimSpace(strings.TrimPrefix(strings.TrimSpace(rest), "invariant"))
 				e, err := parseCExpr(cl.Text)
 				if err != nil {
